@@ -43,8 +43,11 @@ class CallMixin(object):
 
     def ev_Call(self, n, st):
         # keyword / positional argument evaluation
-        if any(isinstance(a, ast.Starred) for a in n.args) or sum(1 for k in n.keywords if k.arg is None) > 1:
-            raise Unsupported('*args / several **kwargs call at line %d' % n.lineno)
+        if sum(1 for k in n.keywords if k.arg is None) > 1:
+            raise Unsupported('several **kwargs in a call at line %d' % n.lineno)
+        if any(isinstance(a, ast.Starred) for a in n.args):
+            yield from self.ev_Call_starred(n, st)
+            return
         # super( C, self ).m( ... )
         if isinstance(n.func, ast.Attribute) and isinstance(n.func.value, ast.Call) and \
                 isinstance(n.func.value.func, ast.Name) and n.func.value.func.id == 'super':
@@ -60,6 +63,34 @@ class CallMixin(object):
                     yield s2, vs
                     continue
                 args = vs[:len(n.args)]
+                kw = dict((k.arg if k.arg is not None else '**', v) for k, v in zip(n.keywords, vs[len(n.args):]))
+                for s3, ff in self.split(s2, f):
+                    if '**' in kw and not self.accepts_starstar(ff):
+                        raise Unsupported('**kwargs call of a function without a sidecar callee model at line %d' % n.lineno)
+                    yield from self.call(ff, args, kw, s3, n)
+
+    def ev_Call_starred(self, n, st):
+        """`f(a, *t, b)` where every starred value is a tuple of known length: the call with the tuple's items spliced in"""
+        from .vals import TupV
+        if isinstance(n.func, ast.Attribute) and isinstance(n.func.value, ast.Call) and isinstance(n.func.value.func, ast.Name) and n.func.value.func.id == 'super':
+            raise Unsupported('*args in a super() call at line %d' % n.lineno)
+        for s, f in self.ev(n.func, st):
+            if is_exc(f):
+                yield s, f
+                continue
+            nodes = [a.value if isinstance(a, ast.Starred) else a for a in n.args] + [k.value for k in n.keywords]
+            for s2, vs in self.evs(nodes, s):
+                if is_exc(vs):
+                    yield s2, vs
+                    continue
+                args = []
+                for a, v in zip(n.args, vs[:len(n.args)]):
+                    if isinstance(a, ast.Starred):
+                        if not isinstance(v, TupV):
+                            raise Unsupported('*args of %r at line %d (only tuples of known length)' % (v, n.lineno))
+                        args.extend(v.items)
+                    else:
+                        args.append(v)
                 kw = dict((k.arg if k.arg is not None else '**', v) for k, v in zip(n.keywords, vs[len(n.args):]))
                 for s3, ff in self.split(s2, f):
                     if '**' in kw and not self.accepts_starstar(ff):
